@@ -24,7 +24,7 @@ from sim.props.ahbcommon import (
     gen_world,
     shrink_validation,
 )
-from sim.props.common import LIVENESS_ERRORS, base_verdict, clone, fail, liveness_verdict, strip_msg
+from sim.props.common import LIVENESS_ERRORS, base_verdict, clone, fail, is_exception, liveness_verdict, strip_msg
 from sim.runner import pristine
 from sim.world import run_requests
 
@@ -230,7 +230,7 @@ def execute(scenario):
         outcome = strip_msg(outcomes.get(rid, {"missing": True}))
         if "ok" not in outcome:
             # a whole-run exception (UNKNOWN on a MUSS node) - nothing to compare element-wise
-            if outcome.get("exc") != "NotImplementedError":
+            if not is_exception(outcome, "NotImplementedError"):
                 fail(verdict, "validation-crashed", f"{rid}: {outcome}")
             continue
         # match the reported items with the nodes of the AHB: reported discriminators are a subsequence of the
@@ -269,17 +269,23 @@ def execute(scenario):
     }
     owners = {r["rid"]: r["owners"] for r in scenario["requests"]}
     owned_calls = 0
+    texts_seen = {}
     for rid, key, text in sim.fc_calls:
         owner = owners.get(rid, {}).get(key)
         if owner is None or owner in repeated.get(rid, ()):
             continue
         owned_calls += 1
-        if rid in [r["rid"] for r in observed] and text != inputs[rid][owner]:
+        texts_seen.setdefault((rid, key, owner), []).append(text)
+    observed_rids = [r["rid"] for r in observed]
+    for (rid, key, owner), texts in texts_seen.items():
+        # a format constraint that was evaluated at all was evaluated against the element's own input (further
+        # evaluations against something else are not forbidden by the statement - the result is judged by clause 1)
+        if rid in observed_rids and inputs[rid][owner] not in texts:
             fail(
                 verdict,
                 "format-constraint-saw-foreign-text",
                 f"{rid}: format constraint {key} of element {owner} (input {inputs[rid][owner]!r}) was evaluated "
-                f"against {text!r}",
+                f"against {texts!r} only",
             )
     verdict["probes"]["owned_fc_calls"] = owned_calls
     verdict["probes"]["elements_compared"] = checked_elements
